@@ -117,6 +117,12 @@ func getFloatToIntFunction() schema.CallableFunction {
 				return math.MinInt64, nil
 			case math.IsNaN(a):
 				return math.MinInt64, fmt.Errorf("attempted to convert a NaN float to an integer")
+			// The conversion of finite values outside the int64 range is also platform-specific,
+			// so saturate as for the infinities. -2^63 is exactly representable, 2^63-1 is not.
+			case a >= math.MaxInt64:
+				return math.MaxInt64, nil
+			case a <= math.MinInt64:
+				return math.MinInt64, nil
 			}
 			return int64(a), nil
 		},
